@@ -13,7 +13,8 @@
            boundary classes).  Avoid = TRUE keeps only calls for which the as-written model predicts no hazard
            (deep behaviours that must be crash-free on the real library); Avoid = FALSE lets hazards through and
            ends the behaviour at the first one.  CONSTRAINT Emit prints BEHAVIOUR lines (the calls as JSON).
-   "sweep" prints, for five contexts (fresh / bank / bank+song / bank + a music file rejected midway / sounding notes under DMX), every function with one parameter at a time swept over its classes
+   "sweep" prints, for six contexts (fresh / bank / bank+song / a music file rejected midway / the same + rewind / sounding notes
+           under DMX), every function with one parameter at a time swept over its classes
            (SWEEP lines = ready histories: hazard-free calls chained, hazardous calls on their own). *)
 EXTENDS ApiSurface, Json
 CONSTANTS MaxDepth, EmitDepth, Mode, Avoid, FuelCap, Salt
@@ -74,7 +75,8 @@ Preload == E("openBankData", [a |-> "b1"])
 (* ---------------------------------------------------------------- weighted function choice for simulation *)
 Hot == << "rt_noteOn", "rt_noteOn", "rt_noteOn", "rt_noteOff", "rt_controllerChange", "rt_controllerChange", "rt_controllerChange",
           "rt_patchChange", "rt_systemExclusive", "generate", "generate", "play", "playFormat", "generateFormat", "tickEvents",
-          "openBankData", "openData", "setNumChips", "switchEmulator", "setVolumeRangeModel", "setChipType", "getBank", "positionSeek" >>
+          "openBankData", "openData", "openData", "openFile", "setNumChips", "switchEmulator", "setVolumeRangeModel", "setChipType", "getBank",
+          "positionSeek", "positionRewind", "tickEvents", "play", "setLoopEnabled", "setTempo" >>
 FnW == Fns \o Hot \o Hot
 RateSeq == SetToSeq(RateC)
 \* (operators with a state argument: TLC evaluates constant-level definitions once, at start-up)
@@ -127,11 +129,12 @@ Ctx == [
   bank  |-> << E("openBankData", [a |-> "b1"]) >>,
   song  |-> << E("openBankData", [a |-> "b2"]), E("openData", [a |-> "s1"]), E("setLoopEnabled", [v |-> 1]) >>,
   rej   |-> << E("openBankData", [a |-> "b1"]), E("openData", [a |-> "s2"]), E("openData", [a |-> "sbadtrk"]) >>,
+  rejrew |-> << E("openBankData", [a |-> "b1"]), E("openData", [a |-> "s1"]), E("openData", [a |-> "sbadvlq"]), E("positionRewind", [nd |-> 0]) >>,
   note  |-> << E("openBankData", [a |-> "b1"]), E("rt_noteOn", [ch |-> 0, k |-> 64, v |-> 127]), E("rt_noteOn", [ch |-> 9, k |-> 64, v |-> 127]),
                E("setVolumeRangeModel", [v |-> 3]) >> ]
 RECURSIVE Run(_, _)
 Run(St, evs) == IF evs = << >> THEN St ELSE Run(Spend(St, Head(evs)), Tail(evs))
-CtxNames == << "fresh", "bank", "song", "rej", "note" >>
+CtxNames == << "fresh", "bank", "song", "rej", "rejrew", "note" >>
 ChainMax == 40
 \* the work list of one context, computed once (TLC does not memoise): its state, its prefix, the calls still to place
 SwOf(i) == LET c == CtxNames[i]  st0 == Run(New(44100), Ctx[c]) IN
